@@ -36,7 +36,7 @@ func FuzzC09(f *testing.F) {
 		if d0, d1 := astDump(ast0), astDump(ast1); d0 != d1 {
 			t.Fatalf("VKEY=C09/program-changed %s\n--- input\n%q\n--- output\n%s", firstDiff(d0, d1), data, out)
 		}
-		in, outBag := commentBag(string(data)), commentBag(out)
+		in, outBag := commentBagLex(string(data)), commentBagLex(out)
 		for c, n := range in {
 			if outBag[c] < n {
 				t.Fatalf("VKEY=C09/comment-lost comment %q: %d in input, %d in output\n--- input\n%q\n--- output\n%s", c, n, outBag[c], data, out)
